@@ -179,18 +179,30 @@ class C16(Check):
         name = "der-of-declared-symbols"
         n = 12 if self.tier == 'quick' else 120
         for it in range(n):
-            desc = self.gen({'features': {'qstate': 0.5, 'p': 0.7, 'pc': 0.4, 'v': 0.5, 'time': 1.0}})
+            extra = {'features': {'qstate': 0.5, 'p': 0.7, 'pc': 0.4, 'v': 0.5, 'time': 1.0}}
+            if it % 2 == 0:
+                # the dynamics declared in one set_der call on a concatenation of state symbols of DIFFERENT sizes
+                extra['state_splits'] = [[2, 1], [1, 2, 1], [2, 1, 2], [1, 1, 2], [3, 1]]
+            desc = self.gen(extra)
+            desc['concat_der'] = it % 2 == 0
             s_ = G.symbols(desc)
             # every right-hand side depends on time explicitly (a right-hand side evaluated at a wrong time must show)
             for i in range(len(desc['ode'])):
                 desc['ode'][i] = ('+', desc['ode'][i], ('*', E.C(G.coef(self.rng)), ('*', ('t',), self.rng.choice(s_['x'] + [('t',)]))))
-            b = B.build(desc, transcribe=False, solver=False)
+            try:
+                b = B.build(desc, transcribe=False, solver=False)
+            except Exception as ex:
+                self.slice_ok[name] = False
+                self.violation("declaring the dynamics (%s) raised: %s: %s" % ("one set_der on the concatenation of the states, sizes %s" % desc['states'] if desc['concat_der'] else "per symbol",
+                                                                            type(ex).__name__, str(ex)[:200].replace("\n", " ")), {"desc": desc}, {"kind": "der-exception", "where": "declaration"})
+                return
             offs = []
             off = 0
             for sz in desc['states']:
                 offs.append(off)
                 off += sz
-            k = self.rng.randrange(len(b.states))
+            k = self.rng.randrange(len(b.states)) if not desc['concat_der'] else (it // 2) % len(b.states)
+            self.count("bare-symbol-declared:" + ("concatenation" if desc['concat_der'] else "per-symbol"))
             try:
                 with B.quiet():
                     de = b.ocp.der(b.states[k])
@@ -1544,7 +1556,7 @@ def compare_multi(md, mb, driver, rng, R=2):
 @register
 class C12(Check):
     pid = "C12"
-    slices = ["tree-nlp-vs-model", "template-unchanged", "solution-readback", "tree-histories", "one-method-object-for-several-stages"]
+    slices = ["tree-nlp-vs-model", "template-unchanged", "solution-readback", "tree-histories", "one-method-object-for-several-stages", "each-stage-on-its-own-grid"]
     uses_generated = True
 
     def explanation(self):
@@ -1618,6 +1630,84 @@ class C12(Check):
         self.readback_slice()
         self.history_slice()
         self.shared_method_slice()
+        self.density_siblings_slice()
+
+    def density_siblings_slice(self):
+        """each stage on its own grid: sibling stages with DensityGrid's of DIFFERENT densities and the SAME N (declared directly, or two
+        instances of one template, the second given its own method) — the nodes of each stage equidistribute that stage's own density
+        (closed-form cumulative density of a polynomial; a numeric test with the tolerance of C06's density check)"""
+        import casadi as ca
+        import numpy as np
+        rockit = B.import_rockit()
+        from rockit.sampling_method import DensityGrid
+        name = "each-stage-on-its-own-grid"
+        n = 2 if self.tier == 'quick' else 12
+        rng = self.rng
+        for it in range(n):
+            templated = it % 2 == 1
+            N = rng.choice([3, 4, 5])
+            coefs = [(1.0, 0.0, float(rng.choice([6, 12, 20]))), (float(rng.choice([1, 2])), float(rng.choice([8, 16])), 0.0), (2.0, 1.0, 3.0)]
+            rng.shuffle(coefs)
+            coefs = coefs[:2] if templated else coefs
+            spans = [(0.5 * i + 0.25, rng.choice([1.0, 2.0, 1.5])) for i in range(len(coefs))]
+            info = {"templated": templated, "N": N, "densities": coefs, "spans": spans}
+
+            def grid(c):
+                t = ca.MX.sym('tau')
+                return DensityGrid(c[0] + c[1] * t + c[2] * t * t)
+
+            def declare(st, c):
+                x = st.state(); u = st.control()
+                st.set_der(x, -x + u)
+                st.add_objective(st.integral(x ** 2 + u ** 2))
+                st.subject_to(st.at_t0(x) == 1)
+                st.method(rockit.MultipleShooting(N=N, M=1, intg='rk', grid=grid(c)))
+                return x
+            try:
+                with B.quiet():
+                    ocp = rockit.Ocp()
+                    stages, xs = [], []
+                    if templated:
+                        tmpl = rockit.Stage(t0=0, T=1)
+                        x = declare(tmpl, coefs[0])
+                        for i, c in enumerate(coefs):
+                            st = ocp.stage(tmpl, t0=spans[i][0], T=spans[i][1])
+                            if i > 0:
+                                st.method(rockit.MultipleShooting(N=N, M=1, intg='rk', grid=grid(c)))
+                            stages.append(st); xs.append(x)
+                    else:
+                        for i, c in enumerate(coefs):
+                            st = ocp.stage(t0=spans[i][0], T=spans[i][1])
+                            xs.append(declare(st, c)); stages.append(st)
+                    ocp.solver('ipopt', {'ipopt.print_level': 0, 'print_time': False, 'ipopt.max_iter': 0, 'ipopt.sb': 'yes'})
+                    ocp._transcribed
+                    opti = ocp._method.opti if hasattr(ocp._method, 'opti') else ocp.opti
+                    times = [np.array(opti.debug.value(st.sample(x_, grid='control')[0], opti.initial())).flatten() for st, x_ in zip(stages, xs)]
+            except Exception as ex:
+                self.slice_ok[name] = False
+                self.violation("sibling stages with density grids raised %s: %s" % (type(ex).__name__, str(ex)[:250].replace("\n", " ")), {"case": info}, {"kind": "exception", "what": "density-siblings"})
+                return
+            self.evaluations += 1
+            self.signatures.add("density-siblings-%d" % it)
+            self.count("density-siblings:" + ("template-instances" if templated else "direct"))
+            for i, (c, ts) in enumerate(zip(coefs, times)):
+                F = lambda t_: c[0] * t_ + c[1] * t_ ** 2 / 2 + c[2] * t_ ** 3 / 3
+                t0_, T_ = spans[i]
+                err = None
+                if len(ts) != N + 1:
+                    err = "stage %d has %d control nodes, N+1 = %d" % (i, len(ts), N + 1)
+                else:
+                    for k in range(N + 1):
+                        nk = (ts[k] - t0_) / T_
+                        if abs(F(nk) / F(1.0) - k / N) > 1e-4:
+                            err = ("stage %d (density %s + %s tau + %s tau^2, N=%d): node %d at normalized time %.6f carries cumulative density %.6f, its own density demands %.6f"
+                                   % (i, c[0], c[1], c[2], N, k, nk, F(nk) / F(1.0), k / N))
+                            break
+                if err:
+                    self.slice_ok[name] = False
+                    self.violation("sibling stages with different density grids and the same N: " + err, {"case": info, "times": [list(map(float, t)) for t in times]},
+                                   {"kind": "density-siblings", "templated": templated})
+                    return
 
     def history_slice(self):
         tree_history_slice(self, "tree-histories")
